@@ -23,6 +23,9 @@ EXPLANATION = (
 EXPLANATION += (
     ' ADDED: C05.4 resolves the origin expression per branch and through single-assignment locals. C05.5 accepts either operand order. C05.6: the sample-interval field (28:32) is decoded only under the 0.1.6 unit gate or on the 2D branch (the cropper must not re-derive times from raw header bytes), and a re-stamped copied header converts it.'
 )
+EXPLANATION += (
+    ' C05.1 also: on the NumPy route the inline axis is a column ([:, k]) of the INLINE_3D grid and the crossline axis a row ([k, :]) of the CROSSLINE_3D grid; header loads whose byte range is driven by a loop over literal constants are expanded, so the 2D start time is seen to be decoded signed.'
+)
 ASSUMPTIONS = ['names denote what they say (axis tags from identifiers)', 'segyio reports the source axes correctly']
 NOT_DECIDED = 'Float rounding of start + i*interval itself; what segyio reports for the source; values of the axes.'
 
